@@ -2,41 +2,43 @@
  * fe_negate, fe_normalize*, fe_is_odd, fe_get_b32, ge_to_bytes, memcmp_var), every byte content of the
  * opaque objects, every NULL/non-NULL combination.  One entry per unit (-DU_<ENTRY>).
  *
- * View of a secp256k1_pubkey / _xonly_pubkey object (64 bytes): x = little-endian integer of bytes
- * 0..31, y = bytes 32..63 (the 4x64 storage words on this target).  An object is INVALID iff x = 0
- * (what secp256k1_pubkey_load rejects with the illegal callback).  The library only ever stores
- * coordinates < p; the specs below are stated for arbitrary bytes wherever the code reduces mod p and
- * restricted to y < p where the code looks at the raw parity bit (xonly_from_pubkey).
+ * Opaque objects are decoded through the TU's own secp256k1_ge_from_bytes (spec.h views): coordinates as
+ * integers mod p; an object is INVALID iff its stored x is zero (what secp256k1_pubkey_load rejects with the
+ * illegal callback).  Nothing is asserted about bytes of an object.
  *
- *   h_pubkey_negate        x' = x mod p, y' = -y mod p; invalid => ret 0, illegal, object zeroed
+ *   h_pubkey_negate        x' = x, y' = -y (mod p); invalid => ret 0, illegal, object stays unusable
  *   h_pubkey_cmp           sign(ret) = sign(memcmp(enc33(pk0), enc33(pk1))), enc33(NULL/invalid) = 0^33
  *   h_xonly_from_pubkey    parity = odd(y); x kept; y' = y if even, p - y if odd; input untouched */
 #include "pre.h"
 #include "spec.h"
 #include "src/secp256k1.c"
 #include "post.h"
+#define SPEC_VIEWS
+#include "spec.h"
 
 #ifdef U_PUBKEY_NEGATE
 void h_pubkey_negate(void) {
     secp256k1_context ctx;
-    INPUT(secp256k1_pubkey, pk); INPUT(_Bool, use_pk); INPUT(size_t, k);
-    int ret; sp xv = sp_le32(pk.data), yv = sp_le32(pk.data + 32);
+    INPUT(secp256k1_pubkey, pk); INPUT(_Bool, use_pk);
+    int ret, in_inv, out_inv; sp xv, yv, ox, oy;
     verif_ctx_init(&ctx);
-    __CPROVER_assume(k < 64);
+    view_pk64(pk.data, &xv, &yv, &in_inv);
     ret = secp256k1_ec_pubkey_negate(&ctx, use_pk ? &pk : NULL);
+    view_pk64(pk.data, &ox, &oy, &out_inv);
     __CPROVER_assert(g_error == 0, "C04 pubkey_negate: error callback never invoked");
     if (!use_pk) __CPROVER_assert(ret == 0 && g_illegal == 1, "C04 pubkey_negate: NULL pubkey is illegal and returns 0");
-    else if (sp_is0(xv)) {
+    else if (in_inv) {
         __CPROVER_assert(ret == 0 && g_illegal == 1, "C04 pubkey_negate: invalid pubkey object is illegal and returns 0");
-        __CPROVER_assert(pk.data[k] == 0, "C04 pubkey_negate: failure leaves an all-zero (invalid) pubkey");
+        __CPROVER_assert(out_inv, "C04 pubkey_negate: failure returns no usable key (the object is rejected by pubkey_load)");
     } else {
         __CPROVER_assert(ret == 1 && g_illegal == 0, "C04 pubkey_negate: returns 1 for every valid pubkey object");
-        __CPROVER_assert(sp_eq(sp_le32(pk.data), sp_modp(xv)), "C04 pubkey_negate: x coordinate unchanged (stored reduced mod p)");
-        __CPROVER_assert(sp_eq(sp_le32(pk.data + 32), sp_negp(sp_modp(yv))), "C04 pubkey_negate: y' = -y mod p, stored reduced");
+        __CPROVER_assert(sp_eq(ox, xv), "C04 pubkey_negate: x coordinate unchanged (mod p)");
+        __CPROVER_assert(sp_eq(oy, sp_negp(yv)), "C04 pubkey_negate: y' = -y mod p");
     }
     if (use_pk && ret == 1) REACH("pubkey_negate valid");
-    if (use_pk && ret == 1 && sp_is0(sp_modp(yv))) REACH("pubkey_negate y = 0 mod p");
+    if (use_pk && ret == 1 && sp_is0(yv)) REACH("pubkey_negate y = 0 mod p");
     if (use_pk && ret == 0) REACH("pubkey_negate invalid object");
+    if (!use_pk) REACH("pubkey_negate NULL");
 }
 #endif
 
@@ -49,8 +51,9 @@ void h_pubkey_cmp(void) {
     verif_ctx_init(&ctx);
     __CPROVER_assume(k < 64);
     /* enc33(pk) = (0x02 | odd(y mod p)) || be32(x mod p); 0^33 for NULL / invalid objects */
-    if (use_pk0 && !sp_is0(sp_le32(pk0.data))) { tag0 = 2 | sp_odd(sp_modp(sp_le32(pk0.data + 32))); x0 = sp_modp(sp_le32(pk0.data)); }
-    if (use_pk1 && !sp_is0(sp_le32(pk1.data))) { tag1 = 2 | sp_odd(sp_modp(sp_le32(pk1.data + 32))); x1 = sp_modp(sp_le32(pk1.data)); }
+    { sp vx, vy; int inv;
+      view_pk64(pk0.data, &vx, &vy, &inv); if (use_pk0 && !inv) { tag0 = 2 | sp_odd(vy); x0 = vx; }
+      view_pk64(pk1.data, &vx, &vy, &inv); if (use_pk1 && !inv) { tag1 = 2 | sp_odd(vy); x1 = vx; } }
     bad = (tag0 == 0) + (tag1 == 0);
     /* lexicographic order of the 33 bytes = order of (tag, x as big-endian integer) */
     lt = tag0 < tag1 || (tag0 == tag1 && sp_lt(x0, x1));
@@ -59,7 +62,7 @@ void h_pubkey_cmp(void) {
     __CPROVER_assert(g_error == 0, "C04 pubkey_cmp: error callback never invoked");
     __CPROVER_assert((ret < 0) == lt && (ret > 0) == gt, "C04 pubkey_cmp: sign equals lexicographic order of the compressed encodings (NULL/invalid = 33 zero bytes)");
     __CPROVER_assert((g_illegal != 0) == (bad != 0), "C04 pubkey_cmp: illegal callback exactly when a key is NULL or invalid");
-    __CPROVER_assert(pk0.data[k] == a0.data[k] && pk1.data[k] == a1.data[k], "C04 pubkey_cmp: inputs are not modified");
+    __CPROVER_assert(pk0.data[k] == a0.data[k] && pk1.data[k] == a1.data[k], "C04 pubkey_cmp: inputs (const) are not modified");
     if (bad == 0 && ret == 0) REACH("pubkey_cmp equal valid keys");
     if (bad == 0 && ret < 0 && tag0 == tag1) REACH("pubkey_cmp decided by x");
     if (bad == 0 && ret > 0 && tag0 != tag1) REACH("pubkey_cmp decided by parity byte");
@@ -74,25 +77,29 @@ void h_xonly_from_pubkey(void) {
     INPUT(secp256k1_pubkey, pk); INPUT(secp256k1_xonly_pubkey, xo); INPUT(int, par);
     INPUT(_Bool, use_pk); INPUT(_Bool, use_xo); INPUT(_Bool, use_par); INPUT(size_t, k);
     secp256k1_pubkey pk_in = pk;
-    int ret; sp xv = sp_le32(pk.data), yv = sp_le32(pk.data + 32);
+    int ret, in_inv, out_inv, canon; sp xv, yv, ox, oy;
     verif_ctx_init(&ctx);
     __CPROVER_assume(k < 64);
+    view_pk64(pk.data, &xv, &yv, &in_inv);
+    canon = sp_lt(view_pk64_rawy(pk.data), sp_p());      /* the library only stores y < p; the parity read by the code is that of the stored y */
     ret = secp256k1_xonly_pubkey_from_pubkey(&ctx, use_xo ? &xo : NULL, use_par ? &par : NULL, use_pk ? &pk : NULL);
     __CPROVER_assert(g_error == 0, "C04 xonly_from_pubkey: error callback never invoked");
-    __CPROVER_assert(pk.data[k] == pk_in.data[k], "C04 xonly_from_pubkey: input pubkey is not modified");
+    __CPROVER_assert(pk.data[k] == pk_in.data[k], "C04 xonly_from_pubkey: input pubkey (const) is not modified");
     if (!use_pk || !use_xo) __CPROVER_assert(ret == 0 && g_illegal == 1, "C04 xonly_from_pubkey: NULL argument is illegal and returns 0");
-    else if (sp_is0(xv)) __CPROVER_assert(ret == 0 && g_illegal == 1, "C04 xonly_from_pubkey: invalid pubkey object is illegal and returns 0");
+    else if (in_inv) __CPROVER_assert(ret == 0 && g_illegal == 1, "C04 xonly_from_pubkey: invalid pubkey object is illegal and returns 0");
     else {
+        view_pk64(xo.data, &ox, &oy, &out_inv);
         __CPROVER_assert(ret == 1 && g_illegal == 0, "C04 xonly_from_pubkey: returns 1 for every valid pubkey object");
-        __CPROVER_assert(sp_eq(sp_le32(xo.data), sp_modp(xv)), "C04 xonly_from_pubkey: x coordinate kept");
-        if (sp_lt(yv, sp_p())) {
-            __CPROVER_assert(sp_eq(sp_le32(xo.data + 32), sp_odd(yv) ? sp_sub(sp_p(), yv) : yv), "C04 xonly_from_pubkey: y negated exactly when odd, so the stored y is even");
-            __CPROVER_assert(!sp_odd(sp_le32(xo.data + 32)), "C04 xonly_from_pubkey: stored y is even");
+        __CPROVER_assert(sp_eq(ox, xv), "C04 xonly_from_pubkey: x coordinate kept");
+        if (canon) {
+            __CPROVER_assert(sp_eq(oy, sp_odd(yv) ? sp_sub(sp_p(), yv) : yv), "C04 xonly_from_pubkey: y negated exactly when odd, so the stored y is even");
+            __CPROVER_assert(!sp_odd(oy), "C04 xonly_from_pubkey: stored y is even");
             if (use_par) __CPROVER_assert(par == sp_odd(yv), "C04 xonly_from_pubkey: pk_parity = odd(y)");
         }
     }
     if (ret == 1 && use_par && par == 1) REACH("xonly_from_pubkey odd y");
-    if (ret == 1 && use_par && par == 0 && sp_lt(yv, sp_p())) REACH("xonly_from_pubkey even y");
+    if (ret == 1 && use_par && par == 0 && canon) REACH("xonly_from_pubkey even y");
     if (ret == 1 && !use_par) REACH("xonly_from_pubkey parity pointer NULL");
+    if (use_pk && use_xo && in_inv) REACH("xonly_from_pubkey invalid object");
 }
 #endif
